@@ -26,11 +26,12 @@ Definition agrees_comps (c : case) : bool :=
 Definition agrees_doc (c : case) : bool :=
   let '(_, v, u, o) := c in docs_agree_d (model_out v u) o.
 Definition holds_c07 (c : case) : bool :=
-  let '(_, v, u, o) := c in match o with Some d => prop_C07 u d | None => true end.
+  let '(_, v, u, o) := c in match o with Some d => prop_C07 u d && prop_C07_refs u d | None => true end.
 Definition holds_c08 (c : case) : bool :=
   let '(_, v, u, o) := c in match o with Some d => prop_C08 (u_cfg u) d | None => true end.
 Definition c07_detail (c : case) : list nat :=
-  let '(_, v, u, o) := c in match o with Some d => c07_failed u d | None => [] end.
+  let '(_, v, u, o) := c in
+  match o with Some d => c07_failed u d ++ (if prop_C07_refs u d then [] else [5]) | None => [] end.
 Definition c08_detail (c : case) : list nat :=
   let '(_, v, u, o) := c in match o with Some d => failed_clauses (u_cfg u) d | None => [] end.
 (* the decidable hypotheses of the C07 / C08 theorems, for the evidence *)
